@@ -371,14 +371,14 @@ def run(run, tier, replay):
             raise vlib.ToolError("programs: %d of %d ran" % (s["cases"], len(progs)))
         drift += classify(run, s, d, "programs", "programs")
         run.add_traces(s["cases"])
-        for k in ("trace_events", "blocked_writes", "blocked_opens", "bytes_read", "dgrams_sent", "dgrams_recv",
+        for k in ("trace_events", "blocked_writes", "blocked_opens", "blocked_dgram_sends", "bytes_read", "dgrams_sent", "dgrams_recv",
                   "programs_closed", "errors_after_close"):
             run.note(k, s.get(k))
         run.note("programs", len(progs))
-        if (not s.get("blocked_writes") or not s.get("blocked_opens") or not s.get("programs_closed")) \
-                and not run.violations:
-            raise vlib.ToolError("programs never blocked a writer / an open / never closed: binding too weak: %s" %
-                                 {k: s.get(k) for k in ("blocked_writes", "blocked_opens", "programs_closed")})
+        need = ("blocked_writes", "blocked_opens", "blocked_dgram_sends", "programs_closed", "dgrams_recv")
+        if not all(s.get(k) for k in need) and not run.violations:
+            raise vlib.ToolError("programs never blocked a writer / an open / a datagram sender, never closed or never "
+                                 "received a datagram: binding too weak: %s" % {k: s.get(k) for k in need})
         run.sample(progs[0])
         ok, r = validate(tpath)
         _t("trace validation: %d states" % r.distinct, r.wall)
